@@ -17,11 +17,13 @@ RULE = ("LATTICE: points of config commit/tag/push x tri-state --commit/--tag-co
         "{absent,ok,fail} x {clean, dirty-unrelated, dirty-pattern-file} x --allow-dirty x tag message {empty,set} "
         "x remote {present,absent} x --dry x fetch x {git,hg} (311,040 points; quick = seeded sample, thorough = all). "
         "FAILPOS: per VCS-reaching configuration, one faulted invocation per seam crossing k x {CalledProcessError, ENOENT} "
-        "plus hook fail / EACCES. distinct_nontrivial = distinct (lattice point[, fault position]) whose run reached "
+        "plus hook fail / EACCES. REALSTEPS: real git + real hook scripts for hook {absent,ok,fail} x tag x push x remote x --dry. "
+        "distinct_nontrivial = distinct (lattice point[, fault position]) whose run reached "
         "the VCS seam or a rejection decision, i.e. where the step automaton had events or a verdict to check.")
 ASSUMPTIONS = [
-    "git and hg are FakeRepo models behind bumpver.vcs.sp; hg has no real counterpart in this sandbox",
-    "hooks are FakeHook doubles behind bumpver.hooks.sp",
+    "git and hg are FakeRepo models behind bumpver.vcs.sp (LATTICE, FAILPOS); REALSTEPS repeats a sample with real git 2.39 and "
+    "real /bin/sh hook scripts that log an order marker and their environment; hg has no real counterpart in this sandbox",
+    "hooks are FakeHook doubles behind bumpver.hooks.sp except in REALSTEPS",
     "read-only probes (rev-parse/root, branch -vv, config --get, paths, extra tag listings) are unconstrained",
     "failure of fetch / tag listing / VCS detection is outside the statement's step list: only ordering rules apply",
 ]
@@ -61,6 +63,7 @@ def decode(point):
 def extras(rng):
     return {"hook_src": rng.choice(["config", "cli"]), "tracking": rng.random() < 0.7,
             "old_tag": rng.choice([None, "1.2.0", "1.2.3"]), "ignore_vcs_tag": rng.random() < 0.12,
+            "novcs": rng.random() < 0.06,
             "syntax": rng.choice(["toml", "cfg"])}
 
 
@@ -97,7 +100,8 @@ def build_world(cfg):
              "other.txt": b"unrelated\n", "pre.sh": b"#!/bin/sh\nexit 0\n", "post.sh": b"#!/bin/sh\nexit 0\n"}
     invoker.write_tree(d, files)
     pers = cfg["pers"]
-    os.mkdir(os.path.join(d, ".git" if pers == "git" else ".hg"))
+    if not cfg.get("novcs"):
+        os.mkdir(os.path.join(d, ".git" if pers == "git" else ".hg"))
     repo = fakevcs.FakeRepo(pers, remote=cfg["remote"], tracking=cfg["tracking"])
     repo.baseline(d)
     if cfg["old_tag"]:
@@ -174,6 +178,18 @@ def analyse(cfg, exp, res, ctx, fault=None, cfgname="bumpver.toml"):
     if fetches and not (cfg["fetch"] and cfg["remote"]):
         bad("fetch_when_disabled", "a fetch/pull was issued although %s" % (
             "--no-fetch was given" if not cfg["fetch"] else "no remote exists"))
+
+    if cfg.get("novcs") and not exp["reject"]:
+        # no repository at all: nothing can be committed, tagged or pushed and no hook runs; the files are still bumped
+        if [e for e in events if e["kind"] == "hook" or e["role"] in STEP_ROLES or e["role"] == "fetch"]:
+            bad("step_without_enable", "VCS steps or hooks ran although the project is not under version control")
+        if fault is None and res.exit_code != 0:
+            bad("exit_code", "update in a project without VCS exited %s" % res.exit_code)
+        if fault is None and not cfg["dry"] and before == after:
+            bad("missing_step", "files were not rewritten (project without VCS)")
+        if cfg["dry"] and before != after:
+            bad("dry_mutation", "--dry changed files")
+        return
 
     if exp["reject"]:
         if res.exit_code == 0:
@@ -343,6 +359,8 @@ class Lattice:
         ctx.transition((tuple(r for r, _ in roles if not r.startswith("probe")), res.exit_code))
         if exp["reject"] or any(e["kind"] == "hook" or e["role"] in STEP_ROLES for e in res.events) or cfg["dry"]:
             ctx.nontriv((case["point"],))
+        if cfg.get("novcs"):
+            ctx.probe("project_without_vcs")
         if exp["reject"]:
             ctx.probe("rejected_" + exp["reject"])
         if cfg["dry"]:
@@ -362,7 +380,7 @@ class Lattice:
 
 def reaches_vcs(cfg):
     exp = expectation(cfg)
-    if exp["reject"] or cfg["dry"] or not exp["commit"]:
+    if exp["reject"] or cfg["dry"] or not exp["commit"] or cfg.get("novcs"):
         return False
     if cfg["dirty"] == "pattern" or (cfg["dirty"] == "unrelated" and not cfg["allow_dirty"]):
         return False
@@ -480,3 +498,111 @@ def sanity_gate(tier, total):
     if not any(k.startswith("vcs_fail_at") for k in total["faults"]):
         problems.append("no injected VCS failure fired")
     return problems
+
+
+class RealSteps:
+    """Real git + real /bin/sh hook scripts: fidelity leg for the FakeRepo/FakeHook results (order marker + env)."""
+    name = "REALSTEPS"
+
+    def total(self, tier):
+        return 160 if tier == "quick" else 4000
+
+    def deadline(self, tier):
+        return 170 if tier == "quick" else 1500
+
+    def gen(self, seed, index, tier):
+        rng = runner.rng_for(seed, self.name, index)
+        return {"pre": rng.choice(["absent", "ok", "ok", "fail"]), "post": rng.choice(["absent", "ok", "ok", "fail"]),
+                "tag": rng.random() < 0.8, "push": rng.random() < 0.5, "remote": rng.random() < 0.7,
+                "hook_src": rng.choice(["config", "cli"]), "dry": rng.random() < 0.15, "ops": [{"op": "update"}]}
+
+    def run(self, case, ctx):
+        from sim import realgit
+        import stat
+        d = invoker.new_dir("rs")
+        log = d + ".hooks.log"
+        hook_lines = ""
+        argv = ["update", "--patch"]
+        for which in ("pre", "post"):
+            if case[which] == "absent":
+                continue
+            script = ("#!/bin/sh\necho \"%s $BUMPVER_OLD_VERSION $BUMPVER_NEW_VERSION $(git rev-parse HEAD) "
+                      "$(git tag --list | wc -l) $(git status --porcelain | wc -l)\" >> '%s'\nexit %d\n"
+                      % (which, log, 0 if case[which] == "ok" else 7))
+            path = os.path.join(d, which + ".sh")
+            with open(path, "w") as fobj:
+                fobj.write(script)
+            os.chmod(path, os.stat(path).st_mode | stat.S_IXUSR)
+            if case["hook_src"] == "config":
+                hook_lines += '%s_commit_hook = "%s.sh"\n' % (which, which)
+            else:
+                argv += ["--%s-commit-hook" % which, which + ".sh"]
+        cfg = ('[bumpver]\ncurrent_version = "1.2.3"\nversion_pattern = "MAJOR.MINOR.PATCH"\n%scommit = true\ntag = %s\npush = %s\n\n'
+               '[bumpver.file_patterns]\n"bumpver.toml" = [\'current_version = "{version}"\']\n"a.txt" = ["ver {version}"]\n'
+               % (hook_lines, "true" if case["tag"] else "false", "true" if case["push"] else "false"))
+        invoker.write_tree(d, {"bumpver.toml": cfg.encode(), "a.txt": b"ver 1.2.3\n"})
+        if case["dry"]:
+            argv.append("--dry")
+        rg = realgit.RealGit(d, TODAY, remote=case["remote"])
+        rg.init()
+        head0 = rg.head()
+        res = invoker.invoke(d, argv, TODAY, fakevcs.VcsShim(None, forward_env=rg.env), realgit.PassthroughHooks())
+        ctx.invocations += 1
+        lines = []
+        if os.path.exists(log):
+            with open(log) as fobj:
+                lines = [ln.split() for ln in fobj.read().splitlines()]
+            os.unlink(log)
+        head1 = rg.head()
+        tags = rg.tags()
+        ctx.event(argv, res.exit_code, [ln[:3] for ln in lines], head1 != head0, tags)
+        key = (case["pre"], case["post"], case["tag"], case["push"], case["remote"], case["dry"], case["hook_src"])
+        ctx.nontriv(key)
+        ctx.probe("real_hook_ran", len(lines))
+        ctx.sample = {"campaign": self.name, "argv": argv, "hooks_log": lines, "exit": res.exit_code, "tags": tags}
+        facts = {"real": True}
+
+        def bad(kind, msg):
+            ctx.violation("C10", kind, dict(facts), "%s | case=%s argv=%s exit=%s hook log=%s tags=%s" % (
+                msg, case, argv, res.exit_code, lines, tags))
+
+        if case["dry"]:
+            if lines or head1 != head0 or tags or res.changed:
+                bad("dry_mutation", "--dry ran a hook or changed the repository / files")
+            return
+        want = []
+        if case["pre"] != "absent":
+            want.append("pre")
+        if case["pre"] != "fail" and case["post"] != "absent":
+            want.append("post")
+        if [ln[0] for ln in lines] != want:
+            bad("step_order", "hooks that ran: %s, expected %s" % ([ln[0] for ln in lines], want))
+            return
+        for ln in lines:
+            if ln[1:3] != ["1.2.3", "1.2.4"]:
+                bad("hook_env", "hook %s saw old/new %s" % (ln[0], ln[1:3]))
+            if ln[0] == "pre" and (ln[3] != head0 or ln[5] == "0"):
+                bad("step_order", "pre-commit hook must run after the rewrite and before the commit (HEAD %s, dirty entries %s)" % (ln[3], ln[5]))
+            if ln[0] == "post" and (ln[3] == head0 or ln[4] != "0"):
+                bad("step_order", "post-commit hook must run after the commit and before the tag (HEAD moved: %s, tags seen %s)" % (
+                    ln[3] != head0, ln[4]))
+        failed = case["pre"] == "fail" or case["post"] == "fail"
+        if failed != (res.exit_code != 0):
+            bad("exit_code", "exit code %s with failing hook = %s" % (res.exit_code, failed))
+        if case["pre"] == "fail" and head1 != head0:
+            bad("step_after_failure", "commit made although the pre-commit hook failed")
+        if failed and tags:
+            bad("step_after_failure", "tag created although a hook failed")
+        if not failed:
+            if head1 == head0:
+                bad("missing_step", "no commit")
+            if case["tag"] != (tags == ["1.2.4"]):
+                bad("missing_step" if case["tag"] else "step_without_enable", "tags %s with tag=%s" % (tags, case["tag"]))
+            if case["remote"]:
+                remote_head = rg.git("ls-remote", "origin", "refs/heads/main").split("\t")[0]
+                pushed = remote_head == head1
+                if pushed != bool(case["push"]):
+                    bad("missing_step" if case["push"] else "step_without_enable", "pushed=%s with push=%s" % (pushed, case["push"]))
+
+
+CAMPAIGNS.append(RealSteps())
